@@ -4,7 +4,7 @@ Real code executed: XtcePacketDefinition.packet_generator(combine_segmented_pack
 (the per-APID state machine, continuity test, concatenation), ccsds_generator on the BV back end, RawPacketData accessors,
 parse_ccsds_packet with a definition whose root container is empty.
 Symbolic: for each of K packets the sequence flags, APID (one of A values), all 14 bits of the sequence count (gaps and
-wrap-around are assignments), version/type/secondary-header bits and the data bytes.  s is a picked value 0..2.
+wrap-around are assignments), version/type/secondary-header bits and the data bytes.  s is a picked value 0..7.
 """
 import io
 
@@ -28,17 +28,17 @@ W_GAP = "Continuation packets for apid"
 META = {
     "level": "model_checking",
     "claim": "For every history of K packets (quick K=4 over 2 APIDs; thorough K=5 over 2 APIDs and K=4 over 3 APIDs) whose sequence flags, APID "
-             "choice, full 14-bit sequence counts and data bytes are symbolic, and every secondary-header length 0..2, z3 proves on every path of the "
+             "choice, full 14-bit sequence counts and data bytes are symbolic, and every secondary-header length 0..7 (including lengths that exceed a segment's data field), z3 proves on every path of the "
              "real packet_generator(combine_segmented_packets=True) that the yielded raw packets are exactly those of an independent reference "
              "state machine (per APID: FIRST opens, consecutive-mod-16384 CONTINUATIONs extend, LAST closes and emits first packet + later data "
              "fields minus the secondary header; everything else dropped), byte for byte and in order, so that no input packet contributes to two "
              "outputs, with the 'no start' / 'out of sequence' warnings exactly where the reference drops.",
     "trusted": "z3; BV proxies; dict lookup by a symbolic APID = pick of a feasible value; cross-validated on every path against the unpatched "
                "generator; the reference state machine (Appendix A of DESIGN.md) is my reading of the property",
-    "bounds": {"quick": {"K": 4, "APIDs": 2, "secondary_header_bytes": "0..2", "data bytes per packet": "3..6"},
-               "thorough": {"K/APIDs": "5/2 and 4/3", "secondary_header_bytes": "0..2", "data bytes per packet": "3..7"}},
+    "bounds": {"quick": {"K": 4, "APIDs": 2, "secondary_header_bytes": "0..7 (longer than the shorter data fields)", "data bytes per packet": "3..6"},
+               "thorough": {"K/APIDs": "5/2 and 4/3", "secondary_header_bytes": "0..7 (longer than the shorter data fields)", "data bytes per packet": "3..7"}},
     "stubs": ["warnings.warn recorded (category + message prefix)", "dict[key] with a symbolic APID key: pick"],
-    "outside_claim": ["histories longer than K", "more than 3 APIDs", "data fields shorter than the secondary header"],
+    "outside_claim": ["histories longer than K", "more than 3 APIDs"],
     "assumptions": ["packets in the stream are well-formed (length fields concrete and consistent)"],
 }
 
@@ -105,7 +105,7 @@ class Segments(Harness):
     def run(self, ctx):
         lib = self.lib
         K, A = self.job["params"]["K"], self.job["params"]["A"]
-        s = choose(ctx, "s", 3)
+        s = choose(ctx, "s", 8)
         stream, pk = build_stream(ctx, K, A)
         gen = self.definition.packet_generator(stream, combine_segmented_packets=True, secondary_header_bytes=s)
         out = []
